@@ -199,6 +199,9 @@ func mkEq(a, b *Term) *Term {
 			return mkNot(a)
 		}
 	}
+	if b.s < a.s {
+		a, b = b, a
+	}
 	return build("=", 0, a, b)
 }
 
